@@ -48,6 +48,8 @@ func (p c14Pod) build(name string) *v1.Pod {
 		pod.Spec.NodeSelector = map[string]string{c14Key: c14Val}
 	case "keyvalextra":
 		pod.Spec.NodeSelector = map[string]string{c14Key: c14Val, "zone": "a"}
+	case "keyvalcase":
+		pod.Spec.NodeSelector = map[string]string{c14Key: "Shared"}
 	}
 	switch p.Affinity {
 	case "empty":
@@ -205,7 +207,7 @@ func c14Grid(t *testing.T, tier string, shard, shards int, c *h.Collector) {
 		if ai%shards != shard {
 			continue
 		}
-		for _, selr := range []string{"nil", "empty", "otherkey", "keyother", "keyval", "keyvalextra"} {
+		for _, selr := range []string{"nil", "empty", "otherkey", "keyother", "keyval", "keyvalextra", "keyvalcase"} {
 			for _, own := range []string{"none", "rs", "ds", "both", "both-rev"} {
 				for _, st := range []string{"none", "file", "api"} {
 					idx++
@@ -250,6 +252,8 @@ func c14Grid(t *testing.T, tier string, shard, shards int, c *h.Collector) {
 	}{
 		{nil, false}, {map[string]string{}, false}, {map[string]string{c14Key: c14Val}, true}, {map[string]string{c14Key: c14Other}, false},
 		{map[string]string{c14Other: c14Val}, false}, {map[string]string{c14Key: c14Val, "zone": "a"}, true}, {map[string]string{c14Key: ""}, false},
+		{map[string]string{c14Key: "Shared"}, false}, {map[string]string{c14Key: "SHARED"}, false}, {map[string]string{c14Key: c14Val + " "}, false},
+		{map[string]string{"Customer": c14Val}, false}, {map[string]string{c14Key: c14Val + "x"}, false}, {map[string]string{c14Key: "share"}, false},
 	}
 	var expectNodes []string
 	for i, nc := range nodeCases {
@@ -341,7 +345,7 @@ func init() {
 	register(&Check{
 		ID:    "C14",
 		Level: "exploration",
-		Rule: "every pod shape in the universe: node selector {nil, empty, other key, key->other, key->value, key->value+extra} x affinity {nil, empty, node affinity without required terms, preferred only, match-fields only, pod affinity, pod anti-affinity, required with zero terms, one term of 0..2 expressions, two terms of 0..1 expressions; expressions over key {group key, other} x operator {In, NotIn, Exists, DoesNotExist, Gt} x values {[], [value], [other], [other,value]}} x owners {none, ReplicaSet, DaemonSet, both in either order} x static annotation {none, file, api}; 7 node label maps; " +
+		Rule: "every pod shape in the universe: node selector {nil, empty, other key, key->other, key->value, key->value+extra} x affinity {nil, empty, node affinity without required terms, preferred only, match-fields only, pod affinity, pod anti-affinity, required with zero terms, one term of 0..2 expressions, two terms of 0..1 expressions; expressions over key {group key, other} x operator {In, NotIn, Exists, DoesNotExist, Gt} x values {[], [value], [other], [other,value]}} x owners {none, ReplicaSet, DaemonSet, both in either order} x static annotation {none, file, api}; 13 node label maps (including values differing only in case, by a trailing space, by a prefix / suffix); " +
 			"through the real filter constructors and again through the filtered listers (two consecutive List calls, the pods re-created under the same names with other shapes in between), compared with the predicate of the statement; non-trivial = every shape; distinct by construction",
 		Grid:        c14Grid,
 		Assumptions: append([]string{"default group: shapes whose affinity sub-structures are present but hold no rule are accepted with either answer (the statement does not settle them)"}, commonAssumptions...),
